@@ -71,12 +71,12 @@ def big_extras(L, bl_member):
 def group_values(g, max_entries, inflate, depth, model=None):
     flat = not g.groups and not g.data
     big = []
-    if inflate and model is not None and flat:
+    if inflate and model is not None and (flat or depth == 0):
         big = big_extras(g, model.member(g.dimension, "blockLength"))
     if big:
         # a flat group with huge entries: at most 2 entries
         def build(extra):
-            cap = 2 if extra > 1000 else (max_entries if depth < 2 else min(2, max_entries))
+            cap = (2 if flat else 1) if extra > 1000 else (max_entries if depth < 2 else min(2, max_entries))
             return st.integers(0, cap).flatmap(lambda k: st.fixed_dictionaries({
                 "entries": st.lists(level_values(g, max_entries, inflate, depth + 1, model), min_size=k, max_size=k), "extra": st.just(extra)}))
         return st.sampled_from([0, 0, 1, 2, 5, 8] * 3 + big).flatmap(build)
